@@ -120,6 +120,7 @@ def inline(r, c: Ctx, depth=0) -> str:
         ])
     if k < 0.89 and "substitution" in c.ext and c.on("substitutions"):
         return r.choice(["{{ key1 }}", "{{key2}}", "{{ undefined_key }}", "{{ key1 | upper }}", "{{ cyc_a }}",
+                         "||key1||", "[[ key2 ]]", "{{ key1 }} and ||key1||",
                          "{{ 1 + }}", "{{ env.docname }}" if c.front_end == "sphinx" else "{{ key1 }}",
                          "{{ wordcount_fake }}", "{{ key_dir }}", "{{ key1.missing.attr }}"])
     if k < 0.92 and "dollarmath" in c.ext:
@@ -523,6 +524,10 @@ def house_front_matter(r, ext=()) -> str:
     if k < 0.45:  # identical front matter that produces a warning in every document that carries it
         key, val = r.choice(FM_OVERRIDES_BAD)
         return f"---\nmyst:\n  {key}: {val}\n---\n"
+    if k < 0.55 and "substitution" in ext:
+        # the same keys/extension set, different substitution delimiters (bound into the plugin at parser creation)
+        return ("---\nmyst:\n  sub_delimiters: " + r.choice(['["|", "|"]', '["[", "]"]']) + "\n---\n\n"
+                "Delimited ||key1|| [[key1]] {{ key1 }}\n")
     if k < 0.8:  # file-level-only extensions: the global configuration does not enable them
         want = [e for e in ("dollarmath", "amsmath", "deflist", "colon_fence") if e not in ext] or ["dollarmath"]
         return "---\nmyst:\n  enable_extensions: [" + ", ".join(r.sample(want, k=min(len(want), 2))) + "]\n---\n"
